@@ -69,6 +69,18 @@ def sub_kernel(case, via_accessor=False):
     ldt = case.get("label_dtype", "int32")
     if ldt != "int32" and via_accessor and labels.min() >= np.iinfo(ldt).min and labels.max() <= np.iinfo(ldt).max:
         labels = labels.astype(ldt)  # the accessor accepts any integer label dtype that casts safely to int32
+    if case.get("layout") == "strided":
+        # template / labels / observations handed over as views with a non-unit stride (a column of a calendar table, every
+        # second entry of a half-daily axis): same values, so the same result
+        def strided(a, fill):
+            buf = np.empty(2 * a.size, dtype=a.dtype)
+            buf[0::2] = a
+            buf[1::2] = fill
+            return buf[0::2]
+        template = strided(template, 1.0 - template)
+        labels = strided(labels, labels[::-1])
+        if not via_accessor:
+            x = strided(x, x[::-1])
     t0, l0 = template.copy(), labels.copy()
     if via_accessor:
         npx = case.get("npx", 1)
@@ -187,6 +199,8 @@ def tcase(draw, nmax, accessor=False):
         case["label_dtype"] = draw(st.sampled_from(["int32", "int32", "int16", "uint8", "uint16", "int8"]))
         case["npx"] = draw(st.integers(1, 3))
         case["dims"] = list(draw(st.permutations(["time", "y", "x"])))
+    if draw(st.integers(0, 3)) == 0:
+        case["layout"] = "strided"
     return case
 
 
